@@ -551,8 +551,8 @@ Proof. induction 1; simpl; lia. Qed.
 Lemma fsum_app g a b : fsum g (a ++ b) = fsum g a + fsum g b.
 Proof. induction a; simpl; lia. Qed.
 
-Definition item_verdict (rf : Z) (active : list Z) (it : item) (v : verdict) : Prop :=
-  exists r, tally_item1 rf active it = Some r /\ ir_verdict r = v.
+Definition item_verdict (rf : Z) (active : list Z) (it : item) (v : option verdict) : Prop :=
+  exists r, tally_item1 rf active it = Some r /\ v = Some (ir_verdict r).
 
 Lemma tally_item1_nodup rf active it r : tally_item1 rf active it = Some r -> NoDup (ir_faults r).
 Proof.
@@ -571,28 +571,37 @@ Proof.
 Qed.
 
 Lemma tally_items_cons rf active fs it tl st :
+  active <> [] ->
   tally_items true true true rf active fs (it :: tl) st =
   match tally_item1 rf active it with
   | Some r =>
       match tally_items true true true rf active (ir_faults r) tl
               {| ts_fc := fold_left bump (ir_faults r) (ts_fc st); ts_cc := ts_cc st + 1 |} with
-      | Some (st'', vs) => Some (st'', ir_verdict r :: vs)
+      | Some (st'', vs) => Some (st'', Some (ir_verdict r) :: vs)
       | None => None
       end
   | None => None
   end.
-Proof. reflexivity. Qed.
+Proof. destruct active; [congruence|reflexivity]. Qed.
+
+(* no bonded validator: GetZkpThreshold fails for every item, nothing is tallied *)
+Lemma tally_items_noactive d l g rf : forall its fs st,
+  tally_items d l g rf [] fs its st = Some (st, map (fun _ => None) its).
+Proof.
+  induction its as [|it tl IH]; intros fs st; [reflexivity|].
+  simpl. rewrite IH. reflexivity.
+Qed.
 
 (* the block tally of the repaired code, item by item *)
-Lemma tally_block_char rf active : forall its fs st st' vs,
+Lemma tally_block_char rf active : active <> [] -> forall its fs st st' vs,
   tally_items true true true rf active fs its st = Some (st', vs) ->
   Forall2 (item_verdict rf active) its vs /\
   ts_cc st' = ts_cc st + Z.of_nat (length its) /\
   forall x, ts_fc st' x = ts_fc st x + fsum (fun it => flt rf active it x) its.
 Proof.
-  induction its as [|it tl IH]; intros fs st st' vs H.
+  intros Hne. induction its as [|it tl IH]; intros fs st st' vs H.
   - simpl in H. inversion H; subst. split; [constructor|]. split; [simpl; lia|]. intros x. simpl. lia.
-  - rewrite tally_items_cons in H.
+  - rewrite (tally_items_cons _ _ _ _ _ _ Hne) in H.
     destruct (tally_item1 rf active it) as [r|] eqn:Hr; [|discriminate].
     destruct (tally_items true true true rf active (ir_faults r) tl
                 {| ts_fc := fold_left bump (ir_faults r) (ts_fc st); ts_cc := ts_cc st + 1 |}) as [[st2 vs2]|] eqn:Ht;
@@ -604,29 +613,30 @@ Proof.
     rewrite (bump_fold_nodup _ _ _ (tally_item1_nodup _ _ _ _ Hr)). lia.
 Qed.
 
-Lemma tally_block_total rf active : forall its fs st,
+Lemma tally_block_total rf active : active <> [] -> forall its fs st,
   Forall (fun it => tally_item1 rf active it <> None) its ->
   exists st' vs, tally_items true true true rf active fs its st = Some (st', vs).
 Proof.
-  induction its as [|it tl IH]; intros fs st Hall.
+  intros Hne. induction its as [|it tl IH]; intros fs st Hall.
   - exists st, []. reflexivity.
-  - inversion Hall as [|? ? Hit Htl]; subst. rewrite tally_items_cons.
+  - inversion Hall as [|? ? Hit Htl]; subst. rewrite (tally_items_cons _ _ _ _ _ _ Hne).
     destruct (tally_item1 rf active it) as [r|]; [|congruence].
     destruct (IH (ir_faults r) {| ts_fc := fold_left bump (ir_faults r) (ts_fc st); ts_cc := ts_cc st + 1 |} Htl) as [st2 [vs2 H2]].
     rewrite H2. eexists. eexists. reflexivity.
 Qed.
 
-Lemma tally_block_ok_items rf active : forall its fs st st' vs,
+Lemma tally_block_ok_items rf active : active <> [] -> forall its fs st st' vs,
   tally_items true true true rf active fs its st = Some (st', vs) ->
   Forall (fun it => tally_item1 rf active it <> None) its.
 Proof.
-  intros its fs st st' vs H. destruct (tally_block_char _ _ _ _ _ _ _ H) as [Hv _].
+  intros Hne its fs st st' vs H. destruct (tally_block_char _ _ Hne _ _ _ _ _ H) as [Hv _].
   clear H. induction Hv as [|it v tl vs' Hiv _ IH]; [constructor|].
   destruct Hiv as [r [Hr _]]. constructor; [congruence|exact IH].
 Qed.
 
 (* order independence: permuting the items tallied in one block *)
 Theorem tally_order_independent rf active its its' st st1 vs1 :
+  active <> [] ->
   Permutation its its' ->
   tally_block rf active its st = Some (st1, vs1) ->
   exists st2 vs2,
@@ -634,15 +644,15 @@ Theorem tally_order_independent rf active its its' st st1 vs1 :
     (forall x, ts_fc st1 x = ts_fc st2 x) /\ ts_cc st1 = ts_cc st2 /\
     Forall2 (item_verdict rf active) its vs1 /\ Forall2 (item_verdict rf active) its' vs2.
 Proof.
-  unfold tally_block. intros Hp H1.
-  pose proof (tally_block_ok_items _ _ _ _ _ _ _ H1) as Hall.
+  unfold tally_block. intros Hne Hp H1.
+  pose proof (tally_block_ok_items _ _ Hne _ _ _ _ _ H1) as Hall.
   assert (Hall' : Forall (fun it => tally_item1 rf active it <> None) its').
   { apply Forall_forall. intros it Hin. rewrite Forall_forall in Hall. apply Hall.
     apply (Permutation_in _ (Permutation_sym Hp) Hin). }
-  destruct (tally_block_total rf active its' [] st Hall') as [st2 [vs2 H2]].
+  destruct (tally_block_total rf active Hne its' [] st Hall') as [st2 [vs2 H2]].
   exists st2, vs2. split; [exact H2|].
-  destruct (tally_block_char _ _ _ _ _ _ _ H1) as (Hv1 & Hc1 & Hf1).
-  destruct (tally_block_char _ _ _ _ _ _ _ H2) as (Hv2 & Hc2 & Hf2).
+  destruct (tally_block_char _ _ Hne _ _ _ _ _ H1) as (Hv1 & Hc1 & Hf1).
+  destruct (tally_block_char _ _ Hne _ _ _ _ _ H2) as (Hv2 & Hc2 & Hf2).
   split; [|split; [|split; assumption]].
   - intros x. rewrite Hf1, Hf2. rewrite (fsum_perm _ _ _ Hp). reflexivity.
   - rewrite Hc1, Hc2. rewrite (Permutation_length Hp). reflexivity.
@@ -651,7 +661,7 @@ Qed.
 (* the fault-set argument threaded through the repaired loop is never read *)
 Lemma tally_items_fs_irrel rf active its st fs fs' :
   tally_items true true true rf active fs its st = tally_items true true true rf active fs' its st.
-Proof. destruct its; reflexivity. Qed.
+Proof. destruct active; [rewrite !tally_items_noactive; reflexivity|destruct its; reflexivity]. Qed.
 
 (* grouping independence: tallying a ++ b in one block = tallying a, then b in a later block *)
 Theorem tally_split_blocks rf active : forall a b st,
@@ -665,11 +675,14 @@ Theorem tally_split_blocks rf active : forall a b st,
   | None => None
   end.
 Proof.
-  unfold tally_block. intros a b. generalize (@nil Z) at 1 2 as fs.
+  unfold tally_block. destruct active as [|a0 act].
+  { intros a b st. rewrite !tally_items_noactive, map_app. reflexivity. }
+  assert (Hne : a0 :: act <> []) by discriminate. remember (a0 :: act) as active.
+  intros a b. generalize (@nil Z) at 1 2 as fs.
   induction a as [|it tl IH]; intros fs st.
   - simpl. rewrite (tally_items_fs_irrel rf active b st fs []).
     destruct (tally_items true true true rf active [] b st) as [[s' vb]|]; reflexivity.
-  - rewrite <- app_comm_cons, !tally_items_cons.
+  - rewrite <- app_comm_cons, !(tally_items_cons _ _ _ _ _ _ Hne).
     destruct (tally_item1 rf active it) as [r|]; [|reflexivity].
     rewrite IH.
     destruct (tally_items true true true rf active (ir_faults r) tl
@@ -680,15 +693,16 @@ Qed.
 (* per item, by the reference: the counter of x rises by exactly one for every tallied item on
    which x is at fault, whatever else is tallied with it *)
 Theorem counter_rises_by_one_per_faulted_item rf active its st st' vs :
+  active <> [] ->
   Forall (fun it => item_wf it = true) its ->
   tally_block rf active its st = Some (st', vs) ->
   (forall x, ts_fc st' x = ts_fc st x +
              Z.of_nat (length (filter (fun it => faulted_spec rf active it x) its))) /\
   ts_cc st' = ts_cc st + Z.of_nat (length its) /\
-  vs = map (verdict_spec rf) its.
+  vs = map (fun it => Some (verdict_spec rf it)) its.
 Proof.
-  unfold tally_block. intros Hwf H.
-  destruct (tally_block_char _ _ _ _ _ _ _ H) as (Hv & Hc & Hf). split; [|split; [exact Hc|]].
+  unfold tally_block. intros Hne Hwf H.
+  destruct (tally_block_char _ _ Hne _ _ _ _ _ H) as (Hv & Hc & Hf). split; [|split; [exact Hc|]].
   - intros x. rewrite Hf. f_equal. clear Hf Hc H.
     induction Hv as [|it v tl vs' [r [Hr _]] _ IH]; [reflexivity|].
     inversion Hwf as [|? ? Hw Hwtl]; subst. cbn [fsum filter]. rewrite (IH Hwtl). rewrite (flt_some _ _ _ _ x Hr).
@@ -802,12 +816,33 @@ Qed.
 (* the zkp threshold lies between 1 and n for a non-empty item *)
 Lemma zkp_threshold_range rf n nact thr : 1 <= n -> zkp_threshold rf n nact = Some thr -> 1 <= thr <= n.
 Proof.
-  unfold zkp_threshold. intros Hn H.
+  unfold zkp_threshold, dtrunc_int. intros Hn H.
   destruct (dmul_int rf n); simpl in H; [|discriminate].
   destruct (dquo_int z nact); simpl in H; [|discriminate].
-  destruct (dceil z0); simpl in H; [|discriminate].
-  match type of H with (if ?c then _ else _) = _ => destruct c end; [|discriminate].
-  inversion H. lia.
+  destruct (dceil z0) as [c|]; simpl in H; [|discriminate].
+  destruct (c <? n * P) eqn:E.
+  - match type of H with (if ?c then _ else _) = _ => destruct c end; [|discriminate].
+    inversion H. unfold P in *. lia.
+  - inversion H. lia.
+Qed.
+
+(* the formula of commit 9a90e6f and the one it replaced agree wherever the old one did not
+   panic: the new code differs only on inputs on which the old end blocker died
+   (ceil(rf*n/active) beyond int64, or no bonded validator) *)
+Lemma zkp_threshold_same_as_old rf n nact t :
+  1 <= n -> zkp_threshold_old rf n nact = Some t -> zkp_threshold rf n nact = Some t.
+Proof.
+  unfold zkp_threshold, zkp_threshold_old, dtrunc_int, dceil, chk. intros Hn H.
+  destruct (dmul_int rf n); simpl in *; [|discriminate].
+  destruct (dquo_int z nact) as [b|]; simpl in *; [|discriminate].
+  destruct (in_range ((if 0 <? Z.rem b P then Z.quot b P + 1 else Z.quot b P) * P)); simpl in *; [|discriminate].
+  set (q := if 0 <? Z.rem b P then Z.quot b P + 1 else Z.quot b P) in *.
+  assert (Hq : Z.quot (q * P) P = q) by (apply Z.quot_mul; unfold P; lia).
+  rewrite Hq in *.
+  match type of H with (if ?c then _ else _) = _ => destruct c eqn:E end; [|discriminate].
+  inversion H; subst. clear H Hq. clearbody q. destruct (q * P <? n * P) eqn:E2.
+  - f_equal. unfold P in *. lia.
+  - f_equal. unfold P in *. lia.
 Qed.
 
 (* ------------------------------------------------------------------ the code as it was found:
@@ -841,7 +876,7 @@ Definition w_B : item :=
      it_asg := [(1, [0; 1]); (2, [1; 0]); (3, [0; 1]); (4, [1; 0])]; it_ninv := 1; it_ncoins := 1 |}.
 Definition st0 : tstate := {| ts_fc := fun _ => 0; ts_cc := 0 |}.
 
-Definition fc_after (r : option (tstate * list verdict)) (v : Z) : option Z :=
+Definition fc_after (r : option (tstate * list (option verdict))) (v : Z) : option Z :=
   option_map (fun x => ts_fc (fst x) v) r.
 
 Lemma found_faults_leak_between_items :
@@ -894,10 +929,32 @@ Lemma slashed_spec_ext sft info s1 s2 v :
   ts_fc s1 v = ts_fc s2 v -> ts_cc s1 = ts_cc s2 -> slashed_spec sft info s1 v = slashed_spec sft info s2 v.
 Proof. unfold slashed_spec. intros -> ->. reflexivity. Qed.
 
+Lemma faults_in_noactive rf its x : faults_in rf [] its x = 0.
+Proof.
+  unfold faults_in. replace (filter (fun it => faulted_spec rf [] it x) its) with (@nil item); [reflexivity|].
+  symmetry. induction its as [|it tl IH]; simpl; [reflexivity|exact IH].
+Qed.
+
+(* the tally part of the end blocker against the reference, for any set of bonded validators *)
+Lemma tally_block_mid rf active its st st1 vs :
+  Forall (fun it => item_wf it = true) its ->
+  tally_block rf active its st = Some (st1, vs) ->
+  vs = expected_verdicts rf active its /\
+  (forall x, ts_fc st1 x = ts_fc (mid_of rf active its st) x) /\
+  ts_cc st1 = ts_cc (mid_of rf active its st).
+Proof.
+  intros Hwf Ht. destruct active as [|a0 act].
+  - unfold tally_block in Ht. rewrite tally_items_noactive in Ht. inversion Ht; subst. simpl.
+    split; [reflexivity|]. split; [|lia]. intros x. rewrite faults_in_noactive. lia.
+  - assert (Hne : a0 :: act <> []) by discriminate.
+    destruct (counter_rises_by_one_per_faulted_item _ _ _ _ _ _ Hne Hwf Ht) as (Hf & Hc & Hv).
+    split; [exact Hv|]. split; [exact Hf|exact Hc].
+Qed.
+
 Theorem end_block_spec rf sft epoch active info dom its st st' vs sl :
   Forall (fun it => item_wf it = true) its -> NoDup dom ->
   end_block all_fixed rf sft epoch active info dom its st = Some (st', vs, sl) ->
-  vs = map (verdict_spec rf) its /\
+  vs = expected_verdicts rf active its /\
   if epoch then
     (forall v, In v sl <-> In v dom /\ slashed_spec sft info (mid_of rf active its st) v = true) /\
     (forall v, In v dom -> ts_fc st' v = 0) /\ ts_cc st' = 0
@@ -908,7 +965,7 @@ Proof.
   unfold end_block. simpl. intros Hwf Hd H.
   fold (tally_block rf active its st) in H.
   destruct (tally_block rf active its st) as [[st1 vs1]|] eqn:Ht; simpl in H; [|discriminate].
-  destruct (counter_rises_by_one_per_faulted_item _ _ _ _ _ _ Hwf Ht) as (Hf & Hc & Hv).
+  destruct (tally_block_mid _ _ _ _ _ _ Hwf Ht) as (Hv & Hf & Hc).
   destruct epoch.
   - destruct (slash_epoch true sft info dom st1) as [[sl2 st2]|] eqn:Hs; simpl in H; [|discriminate].
     inversion H; subst. split; [reflexivity|].
